@@ -45,7 +45,11 @@ class ConnectComp(TimeComponent):
             else:
                 self.inputs.add(name=i["name"])
                 if isinstance(i["info"], list):
-                    in_rules[i["name"]] = [FromOutput(i["info"][1]), FromValue("time", self.time)]
+                    if i.get("rule_units"):
+                        in_rules[i["name"]] = [FromOutput(i["info"][1], ["grid"]), FromValue("time", self.time),
+                                               FromValue("units", i["rule_units"])]
+                    else:
+                        in_rules[i["name"]] = [FromOutput(i["info"][1]), FromValue("time", self.time)]
         for o in s["outputs"]:
             if o.get("okind") == "callback":
                 # pull-based output: no initial publication, the provider answers once the component is through
@@ -57,7 +61,11 @@ class ConnectComp(TimeComponent):
             else:
                 self.outputs.add(name=o["name"])
                 if isinstance(o["info"], list):
-                    out_rules[o["name"]] = [FromInput(o["info"][1]), FromValue("time", self.time)]
+                    if o.get("rule_units"):
+                        out_rules[o["name"]] = [FromInput(o["info"][1], ["grid"]), FromValue("time", self.time),
+                                                FromValue("units", o["rule_units"])]
+                    else:
+                        out_rules[o["name"]] = [FromInput(o["info"][1]), FromValue("time", self.time)]
         self.create_connector(pull_data=[i["name"] for i in s["inputs"] if i["pull"]],
                               in_info_rules=in_rules, out_info_rules=out_rules, cache=s.get("cache", True))
 
@@ -171,6 +179,8 @@ def expected_values(sc):
 
     def out_units(ci, oi, depth=0):
         o = comps[ci]["outputs"][oi]
+        if o.get("rule_units"):
+            return o["rule_units"]
         if isinstance(o["info"], list) and depth < 30:
             ii = next(k for k, i in enumerate(comps[ci]["inputs"]) if i["name"] == o["info"][1])
             return in_units(ci, ii, depth + 1)
@@ -178,6 +188,8 @@ def expected_values(sc):
 
     def in_units(ci, ii, depth=0):
         i = comps[ci]["inputs"][ii]
+        if i.get("rule_units"):
+            return i["rule_units"]
         if isinstance(i["info"], list) and depth < 30:
             oi = next(k for k, o in enumerate(comps[ci]["outputs"]) if o["name"] == i["info"][1])
             return out_units(ci, oi, depth + 1)
